@@ -95,38 +95,7 @@ def run(ctx) -> None:
                       loc=fn.loc(loops[-1]))
             # the replaced span must be the match's own span
         # shape of the spliced value: B[:l] + replacement + B[r:]
-        # ---------------- R2
-        cfg = cfgs.get(fq)
-        pc = PathCond(cfg)
-        complete = None
-        for a in pc.atoms:
-            tree = ast.parse(a, mode="eval").body
-            names = {x.id for x in ast.walk(tree) if isinstance(x, ast.Name)}
-            if isinstance(tree, ast.Compare) and isinstance(tree.ops[0], ast.Eq) and p_patterns in names and len(names) >= 2:
-                other = (names - {p_patterns, "set", "frozenset", "len"})
-                if other:
-                    complete = BF.var(a) if complete is None else complete | BF.var(a)
-            elif isinstance(tree, ast.Name):
-                d = shapes.single_def(fn, tree.id)
-                if d is not None and isinstance(d, ast.BinOp) and isinstance(d.op, ast.Sub) and p_patterns in {x.id for x in ast.walk(d.left) if isinstance(x, ast.Name)}:
-                    complete = ~BF.var(a) if complete is None else complete | ~BF.var(a)
-        ctx.require(complete is not None, f"{fq}: no 'all patterns found' test recognised (set(patterns) == found / non-matched difference)")
-        ex = pc.reach(cfg.exit)
-        ctx.check("R2", ex.implies(complete) and not ex.is_false(),
-                  f"{fq}: normal return implies every pattern was found  [exit iff {ex.to_dnf()}]",
-                  f"{fq}: returns normally although a pattern was not found",
-                  f"normal return is reachable when {(ex & ~complete).to_dnf()}", loc=fn.loc(), witness=(ex & ~complete).models(1))
-        # found set is filled from the matches actually applied
-        adds = [c for c in ast.walk(fn.node) if isinstance(c, ast.Call) and isinstance(c.func, ast.Attribute) and c.func.attr == "add"
-                and c.args and unparse(c.args[0]).endswith(".pattern")]
-        ctx.check("R2", len(adds) == 1 and bool(shapes.enclosing_loops(fn, adds[0])),
-                  f"{fq}: found set is filled with `<match>.pattern` inside the match loop",
-                  f"{fq}: the found-patterns set is not filled from the applied matches", f"adds: {[unparse(a) for a in adds]}", loc=fn.loc())
-        # other paths raise NoPatternMatch
-        raises = [n for n in cfg.nodes if n.kind == "stmt" and isinstance(n.ast, ast.Raise) and n.id in cfg.reachable()]
-        ctx.check("R2", bool(raises) and all((n.extra.get("raised") or "").endswith("NoPatternMatch") for n in raises),
-                  f"{fq}: every other outcome raises NoPatternMatch ({len(raises)} raise sites)",
-                  f"{fq}: incomplete match does not raise NoPatternMatch", f"raise sites: {[n.extra.get('raised') for n in raises]}", loc=fn.loc())
+        all_patterns_found_rule(ctx, eng, "R2")
 
         # ---------------- R4
         match_loops = [n for n in walk_no_nested(fn.node) if isinstance(n, ast.For) and "iter_matches" in unparse(n.iter)]
@@ -316,3 +285,44 @@ def run(ctx) -> None:
         ctx.check("R5", ok, "_parse_current_version_default_pattern: returns the line with current_version replaced by version_pattern",
                   "config._parse_current_version_default_pattern: self pattern is not the current_version line with the pattern substituted",
                   f"`{unparse(r)}`", loc=dp.loc(r))
+
+
+def all_patterns_found_rule(ctx, eng: str, rule: str) -> None:
+    """rewrite_lines of `eng` returns normally only when every pattern was found."""
+    prog, cfgs = ctx.prog, ctx.cfgs
+    fq = f"{eng}.rewrite_lines"
+    fn = prog.function(fq)
+    ctx.visit(fq)
+    p_patterns = fn.params[0]
+    cfg = cfgs.get(fq)
+    pc = PathCond(cfg)
+    complete = None
+    for a in pc.atoms:
+        tree = ast.parse(a, mode="eval").body
+        names = {x.id for x in ast.walk(tree) if isinstance(x, ast.Name)}
+        if isinstance(tree, ast.Compare) and isinstance(tree.ops[0], ast.Eq) and p_patterns in names and len(names) >= 2:
+            other = (names - {p_patterns, "set", "frozenset", "len"})
+            if other:
+                complete = BF.var(a) if complete is None else complete | BF.var(a)
+        elif isinstance(tree, ast.Name):
+            d = shapes.single_def(fn, tree.id)
+            if d is not None and isinstance(d, ast.BinOp) and isinstance(d.op, ast.Sub) and p_patterns in {x.id for x in ast.walk(d.left) if isinstance(x, ast.Name)}:
+                complete = ~BF.var(a) if complete is None else complete | ~BF.var(a)
+    ctx.require(complete is not None, f"{fq}: no 'all patterns found' test recognised (set(patterns) == found / non-matched difference)")
+    ex = pc.reach(cfg.exit)
+    ctx.check(rule, ex.implies(complete) and not ex.is_false(),
+              f"{fq}: normal return implies every pattern was found  [exit iff {ex.to_dnf()}]",
+              f"{fq}: returns normally although a pattern was not found",
+              f"normal return is reachable when {(ex & ~complete).to_dnf()}", loc=fn.loc(), witness=(ex & ~complete).models(1))
+    # found set is filled from the matches actually applied
+    adds = [c for c in ast.walk(fn.node) if isinstance(c, ast.Call) and isinstance(c.func, ast.Attribute) and c.func.attr == "add"
+            and c.args and unparse(c.args[0]).endswith(".pattern")]
+    ctx.check(rule, len(adds) == 1 and bool(shapes.enclosing_loops(fn, adds[0])),
+              f"{fq}: found set is filled with `<match>.pattern` inside the match loop",
+              f"{fq}: the found-patterns set is not filled from the applied matches", f"adds: {[unparse(a) for a in adds]}", loc=fn.loc())
+    # other paths raise NoPatternMatch
+    raises = [n for n in cfg.nodes if n.kind == "stmt" and isinstance(n.ast, ast.Raise) and n.id in cfg.reachable()]
+    ctx.check(rule, bool(raises) and all((n.extra.get("raised") or "").endswith("NoPatternMatch") for n in raises),
+              f"{fq}: every other outcome raises NoPatternMatch ({len(raises)} raise sites)",
+              f"{fq}: incomplete match does not raise NoPatternMatch", f"raise sites: {[n.extra.get('raised') for n in raises]}", loc=fn.loc())
+
